@@ -72,6 +72,21 @@ static std::vector<CheckDef> g_checks = {
           "key data, restarts; oracle = one-shot call of the same family; distinct_nontrivial: distinct (family, key size, direction, "
           "carried partial length, fragment residue, fragment class, nt, in-place) cells",
           { "the one-shot call of the same family is the oracle, not an object under test (that would be C02)" } },
+        { "C13", "fault_enumeration", { { "fipsgate", 1 } }, 48000, 6000000, 50, 900, false, true,
+          "cases: every run starts from one injected self-test state (6 fault kinds, rotated by run index) and its first call rotates over all "
+          "isal_* entry points, so every (entry point x initial fault kind) pair is enumerated once per 6*#entries runs; later calls, XTS "
+          "same-key variants, arguments and further injections are seeded; distinct_nontrivial: distinct (entry point, self-test state "
+          "before the call, pending fault kind, xts-same-keys) tuples judged",
+          { "self-test verdict injected by link-time wrapping of _aes_self_tests/_sha_self_tests or by corrupting a kernel's KAT output",
+            "isal_crypto_get_version* are neither approved nor non-approved and are called but not judged" } },
+        { "C17", "exploration", { { "fipsrace", 1 } }, 60000, 20000000, 50, 900, false, true,
+          "cases: 1-8 coroutine tasks making first calls (isal_self_tests or gated entry points), late arrivals, repeated calls, injected "
+          "verdicts, seeded schedules (uniform, bursty, PCT-style priorities with 0-3 change points) over the yield points inside "
+          "asm_check/set_self_tests_status; distinct_nontrivial: distinct (interleaving prefix hash, status value) pairs reached, i.e. "
+          "distinct scheduler-visible protocol states",
+          { "sequentially consistent interleavings at shared-access granularity (x86-TSO store buffering not modelled: the protocol uses one lock "
+            "cmpxchg and single aligned stores)",
+            "liveness is bounded in scheduling steps under a fair fallback scheduler" } },
 };
 
 static const CheckDef *find_check(const std::string &p)
